@@ -181,16 +181,71 @@ func (x *Exec) appendOp(s Slice, more Value, st types.Type) Value {
 		}
 		return Slice{Arr: s.Arr, Off: s.Off, Len: x.i64(n + len(src)), Cap: s.Cap}
 	}
-	// grow: new backing array (capacity growth policy: exact; Go's may be larger — len-based code cannot tell)
+	// grow: new backing array with the capacity the gc runtime (Go 1.23, 64-bit) would give it (runtime.growslice +
+	// malloc size classes), so that aliasing after a growing append and cap() observations agree with the native replay
 	ncap := n + len(src)
-	arr := x.newArrayCell(et, ncap)
+	acap := goGrowCap(ncap, cp, et)
+	arr := x.newArrayCell(et, acap)
 	for i := 0; i < n; i++ {
 		x.storeCell(arr.Kids[i], x.loadCell(s.Arr.Kids[off+i]))
 	}
 	for i, v := range src {
 		x.storeCell(arr.Kids[n+i], v)
 	}
-	return Slice{Arr: arr, Off: x.i64(0), Len: x.i64(ncap), Cap: x.i64(ncap)}
+	return Slice{Arr: arr, Off: x.i64(0), Len: x.i64(ncap), Cap: x.i64(acap)}
+}
+
+var goSizeClasses = []int{8, 16, 24, 32, 48, 64, 80, 96, 112, 128, 144, 160, 176, 192, 208, 224, 240, 256, 288, 320, 352, 384, 416, 448, 480, 512, 576, 640, 704, 768, 896, 1024, 1152, 1280, 1408, 1536, 1792, 2048, 2304, 2688, 3072, 3200, 3456, 4096, 4864, 5376, 6144, 6528, 6784, 6912, 8192, 9472, 9728, 10240, 10880, 12288, 13568, 14336, 16384, 18432, 19072, 20480, 21760, 24576, 27264, 28672, 32768}
+
+var goSizes = types.StdSizes{WordSize: 8, MaxAlign: 8}
+
+func typeHasPointers(t types.Type) bool {
+	switch u := t.Underlying().(type) {
+	case *types.Basic:
+		return u.Kind() == types.String || u.Kind() == types.UnsafePointer
+	case *types.Struct:
+		for i := 0; i < u.NumFields(); i++ {
+			if typeHasPointers(u.Field(i).Type()) {
+				return true
+			}
+		}
+		return false
+	case *types.Array:
+		return u.Len() > 0 && typeHasPointers(u.Elem())
+	}
+	return true
+}
+
+// goGrowCap mirrors runtime.nextslicecap + roundupsize of Go 1.23 on a 64-bit platform.
+func goGrowCap(newLen, oldCap int, et types.Type) int {
+	size := int(goSizes.Sizeof(et))
+	if size == 0 {
+		return newLen
+	}
+	newcap := oldCap
+	if double := oldCap + oldCap; newLen > double {
+		newcap = newLen
+	} else if oldCap < 256 {
+		newcap = double
+	} else {
+		for newcap < newLen {
+			newcap += (newcap + 3*256) >> 2
+		}
+	}
+	req := newcap * size
+	hdr := 0
+	if req <= 32768-8 {
+		if typeHasPointers(et) && req > 512 {
+			hdr = 8
+		}
+		for _, c := range goSizeClasses {
+			if c >= req+hdr {
+				return (c - hdr) / size
+			}
+		}
+	}
+	req = (req + 8191) &^ 8191
+	return req / size
 }
 
 func (x *Exec) copyOp(dst Slice, srcv Value) Value {
